@@ -196,6 +196,19 @@ func compareDirs(a, b string) string {
 	return fmt.Sprintf("same:%d", len(na))
 }
 
+// scramble spreads VERIF_SEED over the 64-bit state space.  common.NewRng(seed) starts splitmix64 at seed*G+C and
+// every draw adds G, so the streams of seeds 1, 2, 3 are ONE sequence read at offsets 0, 1, 2; generators that draw a
+// variable number of values re-synchronise after a few cases and all seeds then produce the same machines.
+func scramble(x uint64) uint64 {
+	for i := 0; i < 2; i++ {
+		x += 0x9E3779B97F4A7C15
+		x = (x ^ (x >> 30)) * 0xBF58476D1CE4E5B9
+		x = (x ^ (x >> 27)) * 0x94D049BB133111EB
+		x ^= x >> 31
+	}
+	return x
+}
+
 // ---- gen ---------------------------------------------------------------------------------------
 
 func cmdGen(dir string, n int, vlogEvery int) {
@@ -203,7 +216,7 @@ func cmdGen(dir string, n int, vlogEvery int) {
 	lq := configureLQ("same")
 	header(lq)
 	os.MkdirAll(dir, 0o755)
-	rng := common.NewRng(common.Seed())
+	rng := common.NewRng(scramble(common.Seed()))
 	cases := buildCases(rng, n)
 	index := []caseFile{}
 	for i, c := range cases {
@@ -282,6 +295,7 @@ func genOne(dir string, i int, c *genCase, cf caseFile) string {
 			return "ok"
 		}
 		bm2 := (&j2).Dejsoner()
+		bm2.Init() // every tool calls Init right after Dejsoner
 		deq := b2i(deepDumpBM(bm) == deepDumpBM(bm2))
 		resave := 0
 		if jb2, err := json.Marshal(bm2.Jsoner()); err == nil && string(jb2) == string(jb) {
@@ -377,7 +391,9 @@ func loadOne(dir string, i int, cf caseFile, lqMode string) string {
 			out.Line("O.load unmarshalerr=%s", firstLine(err.Error()))
 			return "ok"
 		}
-		bm := (&j).Dejsoner() // what cmd/bondmachine and cmd/basm do
+		// exactly what cmd/bondmachine, cmd/basm, cmd/bm2basm, cmd/simfinetune do with a machine file
+		bm := (&j).Dejsoner()
+		bm.Init()
 		nilops, nilsos := dumpBMLive("X", bm)
 		resave := "0"
 		func() {
